@@ -28,6 +28,16 @@
 //!
 //! Also `srvcfg <op>+<op>…`: `Server::builder().tls_config(..)` alone (`ok|err:<class>|panic`).
 //!
+//! `tlsf <feat> <store> <rest of a tls case>`: the same scenario in a build of tonic that has root-store
+//! features compiled in — which this harness (tls-ring only) has not.  `<feat>` = `n` (tls-ring +
+//! tls-native-roots) or `nw` (+ tls-webpki-roots, with a `webpki-roots` crate whose only anchor is the
+//! test CA `ca2`); `<store>` = what the "platform" store holds for this case (`SSL_CERT_FILE`, which
+//! rustls-native-certs honours): `ca1|ca2|ca1+ca2|empty|junk|missing`.  Extra client ops there:
+//! `nroots` (with_native_roots), `wroots` (with_webpki_roots, `nw` only).  This file is compiled a
+//! second and third time into the side crates `../harness_c15n`, `../harness_c15nw` (which call
+//! `install_side`); the main harness forwards `tlsf` cases to those binaries over a pipe (one
+//! process per side crate per run, one case line in, one observed line out).
+//!
 //! observed line (one group per client, joined by ` | `):
 //!   `res=<ok|fail:CLASS> cfg=<ok|err:…> h=<handler runs> peer=<…> ext=<…> plain=<0|1> dial=<0|1>`
 use crate::common::*;
@@ -371,13 +381,139 @@ fn parse(case: &str) -> Option<Case> {
 /// Applies the builder calls in order; returns the config (None = `notls`) and the identity the
 /// client ends up presenting as far as the *harness* can tell syntactically (last `id:` op; the
 /// model decides what survives `roots`).
-fn anchor(name: &str) -> Option<rustls::pki_types::TrustAnchor<'static>> {
+pub fn anchor(name: &str) -> Option<rustls::pki_types::TrustAnchor<'static>> {
     // RootCertStore::add does the webpki conversion; `roots` is its public field
     let mut st = rustls::RootCertStore::empty();
     for d in ders(cert_pem(name)?) {
         st.add(CertificateDer::from(d)).ok()?;
     }
     st.roots.into_iter().next()
+}
+
+// ------------------------------------------------------------------------------------------
+// builds of tonic with root-store features: the side crates
+
+/// What a side crate tells this module about the build it is: its feature tag and the
+/// `ClientTlsConfig` methods that exist only there.
+#[allow(dead_code)]
+pub struct SideBuild {
+    pub feat: &'static str,
+    pub ext_op: fn(ClientTlsConfig, &str) -> Option<ClientTlsConfig>,
+}
+
+static SIDE: std::sync::OnceLock<(SideBuild, std::path::PathBuf)> = std::sync::OnceLock::new();
+
+const STORES: [(&str, &[&str]); 5] =
+    [("ca1", &["ca1"]), ("ca2", &["ca2"]), ("ca1+ca2", &["ca1", "ca2"]), ("empty", &[]), ("junk", &["junk"])];
+
+/// Called once by a side crate's `main`: writes the "platform certificate store" variants into a
+/// private directory and makes sure nothing else feeds rustls-native-certs.
+#[allow(dead_code)]
+pub fn install_side(b: SideBuild) -> io::Result<()> {
+    let dir = std::env::temp_dir().join(format!("verif-c15{}-{}", b.feat, std::process::id()));
+    std::fs::create_dir_all(&dir)?;
+    for (name, certs) in STORES {
+        let body: String = certs.iter().map(|c| cert_pem(c).unwrap_or("")).collect();
+        std::fs::write(dir.join(format!("{}.pem", name)), body)?;
+    }
+    std::env::remove_var("SSL_CERT_DIR");
+    let _ = SIDE.set((b, dir));
+    Ok(())
+}
+
+#[allow(dead_code)]
+pub fn uninstall_side() {
+    if let Some((_, dir)) = SIDE.get() {
+        let _ = std::fs::remove_dir_all(dir);
+    }
+}
+
+/// `tlsf <feat> <store> <rest>` inside the side binary: point the platform store at `<store>` and
+/// run `<rest>` as a `tls` case.
+fn execute_side_local(b: &SideBuild, dir: &std::path::Path, feat: &str, store: &str, rest: &str) -> String {
+    if feat != b.feat {
+        return "bad-case".into();
+    }
+    let file = match store {
+        "missing" => dir.join("no-such-file.pem"),
+        s if STORES.iter().any(|(n, _)| *n == s) => dir.join(format!("{}.pem", s)),
+        _ => return "bad-case".into(),
+    };
+    // one case at a time in this process (the caller is the stdin loop)
+    std::env::set_var("SSL_CERT_FILE", &file);
+    execute(&format!("tls {}", rest))
+}
+
+struct SideProc {
+    _child: std::process::Child,
+    stdin: std::process::ChildStdin,
+    stdout: std::io::BufReader<std::process::ChildStdout>,
+}
+
+fn side_binary(feat: &str) -> Option<std::path::PathBuf> {
+    let rel = format!("harness_c15{0}/target/debug/c15{0}", feat);
+    let mut roots: Vec<std::path::PathBuf> = Vec::new();
+    if let Ok(exe) = std::env::current_exe() {
+        // <root>/harness/target/debug/harness
+        if let Some(r) = exe.ancestors().nth(4) {
+            roots.push(r.to_path_buf());
+        }
+    }
+    roots.push(std::path::Path::new(env!("CARGO_MANIFEST_DIR")).join(".."));
+    roots.into_iter().map(|r| r.join(&rel)).find(|p| p.is_file())
+}
+
+fn spawn_side(feat: &str) -> Option<SideProc> {
+    use std::process::{Command, Stdio};
+    let mut child = Command::new(side_binary(feat)?)
+        .stdin(Stdio::piped())
+        .stdout(Stdio::piped())
+        .stderr(Stdio::null())
+        .spawn()
+        .ok()?;
+    let stdin = child.stdin.take()?;
+    let stdout = std::io::BufReader::new(child.stdout.take()?);
+    Some(SideProc { _child: child, stdin, stdout })
+}
+
+/// Forward one `tlsf` case to the side binary of its feature set: one long-lived process per
+/// binary, started on first use; a case line in, an observed line out.
+fn execute_side_remote(feat: &str, case: &str) -> String {
+    use std::io::{BufRead, Write};
+    static PROCS: Mutex<[Option<SideProc>; 2]> = Mutex::new([None, None]);
+    let slot = match feat {
+        "n" => 0,
+        "nw" => 1,
+        _ => return "bad-case".into(),
+    };
+    let mut procs = PROCS.lock().unwrap_or_else(|e| e.into_inner());
+    for _attempt in 0..2 {
+        if procs[slot].is_none() {
+            procs[slot] = spawn_side(feat);
+        }
+        let Some(p) = procs[slot].as_mut() else { return "side-binary-missing".into() };
+        let mut line = String::new();
+        let ok = writeln!(p.stdin, "{}", case).is_ok()
+            && p.stdin.flush().is_ok()
+            && matches!(p.stdout.read_line(&mut line), Ok(n) if n > 0);
+        if ok {
+            return line.trim_end().to_string();
+        }
+        // the process died (a crash is not a `panic` of the case: those are caught over there)
+        procs[slot] = None;
+    }
+    "side-process-died".into()
+}
+
+fn execute_tlsf(case: &str) -> String {
+    let mut it = case.splitn(4, ' ');
+    let (Some("tlsf"), Some(feat), Some(store), Some(rest)) = (it.next(), it.next(), it.next(), it.next()) else {
+        return "bad-case".into();
+    };
+    match SIDE.get() {
+        Some((b, dir)) => execute_side_local(b, dir, feat, store, rest),
+        None => execute_side_remote(feat, case),
+    }
 }
 
 fn build_client_cfg(ops: &[String]) -> Option<Option<ClientTlsConfig>> {
@@ -410,6 +546,9 @@ fn build_client_cfg(ops: &[String]) -> Option<Option<ClientTlsConfig>> {
             cfg = cfg.assume_http2(b == "1");
         } else if op == "roots" {
             cfg = cfg.with_enabled_roots();
+        } else if let Some((b, _)) = SIDE.get() {
+            // methods that exist only with the root-store features compiled in
+            cfg = (b.ext_op)(cfg, op)?;
         } else {
             return None;
         }
@@ -1135,6 +1274,9 @@ pub fn execute(case: &str) -> String {
     if let Some(ops) = case.strip_prefix("srvcfg ") {
         return srvcfg(ops.trim());
     }
+    if case.starts_with("tlsf ") {
+        return execute_tlsf(case);
+    }
     let c = match parse(case) {
         Some(c) => c,
         None => return "bad-case".into(),
@@ -1246,6 +1388,60 @@ const CORPUS: &[&str] = &[
     "tls https good ca:ca1 id:c1chain ; s1good h2 ca:ca1+opt:1 duplex-x2",
     "tls http good notls | https good ca:ca1 | http good notls ; s1good h2 - tcp",
     "tls https good notls | http good notls | https good ca:ca1 h2:1 ; s1good plain - tcp-par",
+    // builds with root-store features (side crates): the generated-client entry point CAN succeed
+    // there, and only for a chain that validates against the enabled stores, a matching name, and h2
+    "tlsf n ca1 https good auto ; s1good h2 - tcp",
+    "tlsf n ca1 https good auto ; s1good none - tcp",
+    "tlsf n ca1 https good auto ; s1good none - duplex-lazy",
+    "tlsf n ca1 https good auto ; s1good http11 - duplex",
+    "tlsf n ca1 https good auto ; s1good h2last - tcp",
+    "tlsf n ca1 https good auto ; s2good h2 - tcp",
+    "tlsf n ca2 https good auto ; s2good h2 - tcp",
+    "tlsf n ca1 https bad auto ; s1good h2 - tcp",
+    "tlsf n ca1 https other auto ; s1bad h2 - tcp",
+    "tlsf n ca1 https good auto ; s1good plain - tcp",
+    "tlsf n ca1 http good auto ; s1good plain - tcp",
+    "tlsf n ca1 http good auto ; s1good h2 - tcp",
+    // … as generated `connect` functions do it: Endpoint::new(uri)?.connect()
+    "tlsf n ca1 https ip auto ; s1ip h2 - tcp-native",
+    "tlsf n ca1 https ip auto ; s1ip none - tcp-native",
+    "tlsf n ca1 https ip auto ; s1ip none - tcp-native-lazy",
+    "tlsf n ca1 https ip auto ; s1good h2 - tcp-native",
+    "tlsf n ca2 https ip auto ; s1ip h2 - tcp-native-cto",
+    // a generated client has no identity: an mTLS server serves it only if client auth is optional
+    "tlsf n ca1 https good auto ; s1good h2 ca:ca1 tcp",
+    "tlsf n ca1 https good auto ; s1good h2 ca:ca1+opt:1 tcp",
+    // an empty / unreadable platform store is a configuration error, not an empty trust store
+    "tlsf n empty https good auto ; s1good h2 - tcp",
+    "tlsf n junk https good nroots ca:ca1 ; s1good h2 - tcp",
+    "tlsf n missing https good ca:ca1 roots ; s1good h2 - tcp",
+    "tlsf n empty https good ca:ca1 ; s1good h2 - tcp",
+    // the platform store is trusted only if asked for, and then in addition to the configured CAs
+    "tlsf n ca1 https good ca:ca2 ; s1good h2 - tcp",
+    "tlsf n ca1 https good ; s1good h2 - tcp",
+    "tlsf n ca1 https good ca:ca2 nroots ; s1good h2 - tcp",
+    "tlsf n ca1 https good nroots ca:ca2 ; s2good h2 - tcp",
+    "tlsf n ca1+ca2 https good roots ; s2good h2 - duplex",
+    "tlsf n ca1 https good nroots dom:bad ; s1good h2 - tcp",
+    "tlsf n ca1 https bad dom:good roots ; s1good h2 - tcp",
+    "tlsf n ca1 https good roots h2:1 ; s1good none - tcp",
+    "tlsf n ca1 https good h2:1 roots h2:0 ; s1good none - tcp",
+    "tlsf n ca1 https good id:c1 roots ; s1good h2 ca:ca1 tcp",
+    "tlsf n ca1 https good auto | https good nroots id:c1 | https good ca:ca2 | https good notls ; s1good h2 ca:ca1+opt:1 tcp-par",
+    // both stores compiled in: the webpki store of the test world is {ca2}
+    "tlsf nw ca1 https good auto ; s2good h2 - tcp",
+    "tlsf nw ca1 https good auto ; s1good h2 - tcp",
+    "tlsf nw ca1 https good auto ; s2good none - tcp",
+    "tlsf nw ca1 https good ca:ca1 ; s2good h2 - tcp",
+    "tlsf nw ca1 https good ; s2good h2 - tcp",
+    "tlsf nw ca1 https good nroots ; s2good h2 - tcp",
+    "tlsf nw ca1 https good wroots ; s1good h2 - tcp",
+    "tlsf nw ca1 https good wroots ; s2good h2 - tcp",
+    "tlsf nw ca1 https good wroots nroots ; s1good h2 - duplex",
+    "tlsf nw empty https good wroots ; s2good h2 - tcp",
+    "tlsf nw empty https good auto ; s2good h2 - tcp",
+    "tlsf nw ca2 https ip auto ; s1ip h2 - tcp-native",
+    "tlsf nw ca1 https good notls ; s2good h2 - tcp",
     // server configuration alone
     "tls https good ca:ca1 ; s1good h2 ca:junk tcp",
     "tls https good ca:ca1 ; s1good h2 ca:broken duplex",
@@ -1359,6 +1555,118 @@ fn random_ops(rng: &mut Rng, servercert: &str, aim_ok: bool, urihost: &mut &'sta
         }
     }
     ops
+}
+
+/// Cases for the builds of tonic with root-store features (`tlsf <feat> <store> …`, run by the
+/// side binaries): the generated-client entry point and `with_native_roots` / `with_webpki_roots`
+/// / `with_enabled_roots`, against good / wrong-name / untrusted server certificates, with and
+/// without ALPN h2 on the server side.
+fn side_cases(thorough: bool, rng: &mut Rng, out: &mut Vec<String>) {
+    const CLIENTS_N: [&str; 12] = [
+        "auto", "roots", "nroots", "ca:ca2", "", "nroots ca:ca2", "ca:ca1 roots", "roots h2:1", "nroots dom:good",
+        "roots dom:bad", "notls", "nroots h2:1 h2:0",
+    ];
+    const CLIENTS_W: [&str; 6] = ["wroots", "wroots nroots", "wroots ca:ca1", "wroots h2:1", "wroots dom:good", "nroots wroots dom:bad"];
+    const STORE_NAMES: [&str; 6] = ["ca1", "ca2", "ca1+ca2", "empty", "junk", "missing"];
+    const SIDE_ALPNS: [&str; 6] = ["h2", "none", "http11", "h2last", "h2first", "plain"];
+    // stores that hold no certificate: every configuration asking for the platform store fails the same way
+    let broken = |store: &str| matches!(store, "empty" | "junk" | "missing");
+    for feat in ["n", "nw"] {
+        let mut clients: Vec<&str> = CLIENTS_N.to_vec();
+        if feat == "nw" {
+            clients.extend(CLIENTS_W);
+        }
+        // the generated-client slice in full: store x server certificate x URI host x server ALPN
+        // (quick: the transport is drawn; thorough: every transport)
+        for store in STORE_NAMES {
+            for servercert in SERVER_CERTS {
+                for urihost in ["good", "bad", "ip"] {
+                    for alpn in SIDE_ALPNS {
+                        let trs: &[&str] = if urihost == "ip" {
+                            &["tcp", "duplex-lazy", "tcp-native", "tcp-native-lazy", "duplex-native-cto"]
+                        } else {
+                            &["tcp", "duplex", "tcp-lazy", "duplex-lazy"]
+                        };
+                        if thorough {
+                            for tr in trs {
+                                out.push(format!("tlsf {} {} https {} auto ; {} {} - {}", feat, store, urihost, servercert, alpn, tr));
+                            }
+                        } else if !broken(store) || alpn == "h2" {
+                            let tr = *rng.pick(trs);
+                            out.push(format!("tlsf {} {} https {} auto ; {} {} - {}", feat, store, urihost, servercert, alpn, tr));
+                        }
+                    }
+                }
+            }
+        }
+        // a compiled-in store that was NOT asked for is not trusted: a server certified only by it
+        for (clients, servercert) in [
+            (&["", "ca:ca2", "ta:ca2", "ca:ca2 h2:1", "wroots", "cas:ca2+junk dom:good"][..], "s1good"), // platform store {ca1}
+            (&["", "ca:ca1", "ta:ca1", "ca:ca1 h2:1", "nroots", "nroots ca:ca1"][..], "s2good"),         // webpki store {ca2}
+        ] {
+            for client in clients {
+                if feat == "n" && (servercert == "s2good" || client.contains("wroots")) {
+                    continue;
+                }
+                for alpn in ["h2", "none"] {
+                    for tr in ["tcp", "duplex-lazy"] {
+                        out.push(format!("tlsf {} ca1 https good {} ; {} {} - {}", feat, client, servercert, alpn, tr).replace("  ", " "));
+                    }
+                }
+            }
+        }
+        // hand-written configurations around the root-store methods x the same dimensions
+        // (quick: one in six of the product, drawn; thorough: all of it)
+        for client in &clients {
+            for store in STORE_NAMES {
+                for servercert in SERVER_CERTS {
+                    for alpn in ["h2", "none", "h2last", "plain"] {
+                        for sops in ["-", "ca:ca1+opt:1"] {
+                            if !thorough && !rng.chance(1, if broken(store) { 24 } else { 4 }) {
+                                continue;
+                            }
+                            let (urihost, tr) = if servercert == "s1ip" && rng.chance(1, 2) {
+                                ("ip", *rng.pick(&["tcp-native", "tcp-native-lazy", "tcp", "duplex-native-x2"]))
+                            } else {
+                                (*rng.pick(&["good", "good", "good", "other", "bad"]), *rng.pick(&TRANSPORTS))
+                            };
+                            out.push(
+                                format!("tlsf {} {} https {} {} ; {} {} {} {}", feat, store, urihost, client, servercert, alpn, sops, tr).replace("  ", " "),
+                            );
+                        }
+                    }
+                }
+            }
+        }
+        // random builder-call sequences with the root-store methods mixed in; half of them with
+        // the caller's own CA calls removed, so that the outcome hangs on the stores
+        let nrand = if thorough { 6000 } else { 250 };
+        for _ in 0..nrand {
+            let servercert = *rng.pick(&SERVER_CERTS);
+            let aim_ok = rng.chance(1, 2);
+            let mut urihost: &'static str = *rng.pick(&["good", "good", "bad", "other", "ip"]);
+            let mut ops = random_ops(rng, servercert, aim_ok, &mut urihost);
+            if rng.chance(1, 2) {
+                ops.retain(|o| !(o.starts_with("ca:") || o.starts_with("cas:") || o.starts_with("ta:") || o.starts_with("tas:")));
+            }
+            for _ in 0..rng.range(1, 2) {
+                let extra = if feat == "nw" { *rng.pick(&["nroots", "wroots", "roots", "wroots"]) } else { *rng.pick(&["nroots", "roots"]) };
+                let pos = rng.below(ops.len() as u64 + 1) as usize;
+                ops.insert(pos, extra.to_string());
+            }
+            let store = if aim_ok && rng.chance(2, 3) { issuer_of(servercert) } else { *rng.pick(&["ca1", "ca2", "ca1+ca2", "ca1", "ca2", "ca1+ca2", "empty", "junk", "missing"]) };
+            let alpn = *rng.pick(&ALPNS);
+            if aim_ok && alpn == "none" && rng.chance(1, 2) {
+                ops.push("h2:1".into());
+            }
+            let sops = *rng.pick(&["-", "-", "ca:ca1", "ca:ca1+opt:1", "ca:ca2+opt:1"]);
+            let mut tr = rng.pick(&TRANSPORTS).to_string();
+            if urihost == "ip" && rng.chance(1, 2) {
+                tr.push_str("-native");
+            }
+            out.push(format!("tlsf {} {} https {} {} ; {} {} {} {}", feat, store, urihost, join_ops(&ops), servercert, alpn, sops, tr).replace("  ", " "));
+        }
+    }
 }
 
 pub fn generate(tier: &str, rng: &mut Rng) -> Vec<String> {
@@ -1533,6 +1841,8 @@ pub fn generate(tier: &str, rng: &mut Rng) -> Vec<String> {
         let mode = *rng.pick(&["", "-par", "-par", "-x2", "-par-x2", "-lazy-par", "-lazy"]);
         out.push(format!("tls {} ; s1good {} {} {}{}", clients.join(" | "), alpn, sops, base, mode));
     }
+
+    side_cases(thorough, rng, &mut out);
 
     // server configuration alone: random op sequences incl. malformed PEMs and a missing identity
     let nsrv = if thorough { 3000 } else { 300 };
